@@ -1,0 +1,27 @@
+//go:build verif
+
+package inprocgrpc
+
+import (
+	"context"
+	"sync/atomic"
+)
+
+// Schedule points for the verification harness (build tag "verif" only). The hook is
+// called with the call's client-side context, the name of the point and a short
+// description of the frame involved; it may block to hold the calling goroutine there.
+
+type verifHookFunc func(ctx context.Context, point string, arg string)
+
+var verifHook atomic.Value // of verifHookFunc
+
+// SetVerifHook installs (or, with nil, removes) the schedule-point hook.
+func SetVerifHook(fn func(ctx context.Context, point string, arg string)) {
+	verifHook.Store(verifHookFunc(fn))
+}
+
+func verifPoint(ctx context.Context, point string, arg string) {
+	if fn, _ := verifHook.Load().(verifHookFunc); fn != nil {
+		fn(ctx, point, arg)
+	}
+}
